@@ -23,6 +23,7 @@ import GfsModel.Cpp
 import GfsSpec.Grammar
 import GfsProofs.CppLemmas
 import GfsProps.C15
+import GfsProofs.ListOrder
 import GfsGen.Facts
 import GfsModel.ExpectedSrc
 
@@ -71,6 +72,58 @@ theorem C19_length (s : Seq) (h : ∀ fs, s.frameSet = some fs → 1 ≤ fs.len)
     have := h fs hfs
     simp only
     split <;> omega
+
+/-- Directory scan, one bucket of the property's domain (two or more frames, one digit width):
+    the port builds `<dir><basename><range><pad><ext>`, parses it and forces the components it
+    found while scanning (fix 2e259d6); the Go library builds the sequence from the components.
+    For a directory prefix ending in '/', names without a newline and a range text that parses,
+    the two are the same sequence — whatever the basename contains (pad characters, range-like
+    text). The bucket building itself (first-seen order vs `std::map`, minimum width) is a
+    transliteration and is tied by the three-way run. -/
+theorem C19_scan_bucket (st : PadStyle) (b : SeqInfo) (w : Nat) (fs : FrameSet)
+    (hlen : 2 ≤ b.frames.length) (hw : ∀ f ∈ b.frames, f.frame.length = w) (hw1 : 1 ≤ w)
+    (hdir : b.dir.isEmpty = true ∨ isSuffixOf ['/'] b.dir = true)
+    (hext : b.ext = [] ∨ isPrefixOf ['.'] b.ext = true)
+    (hnl : (b.dir ++ b.base ++ framesToFrameRange (b.frames.map (·.num)) true 0 ++
+            padChars st w ++ b.ext).contains '\n' = false)
+    (hp : FrameSet.parse (framesToFrameRange (b.frames.map (·.num)) true 0) = .ok fs) :
+    ∃ s, Cpp.bucketSeq st b.dir b.base (framesToFrameRange (b.frames.map (·.num)) true 0)
+            (padChars st w) b.ext = .ok s ∧ bucketSeqs st b = [s] := by
+  refine ⟨_, ?_, Order.bucketSeqs_uniform st b w hlen hw⟩
+  have hne : framesToFrameRange (b.frames.map (·.num)) true 0 ≠ [] := by
+    intro h0
+    rw [h0] at hp
+    have : (match FrameSet.parse ([] : Bytes) with | .ok _ => true | .error _ => false) = false := by decide
+    rw [hp] at this
+    cases this
+  have hpad : padChars st w ≠ [] ∧ ∀ c ∈ padChars st w, c = '#' ∨ c = '@' := by
+    refine ⟨ListAux.padChars_ne_nil st w, ?_⟩
+    intro c hc
+    cases st with
+    | hash4 =>
+      simp only [padChars] at hc
+      split at hc
+      · omega
+      · split at hc
+        · exact Or.inl (List.eq_of_mem_replicate hc)
+        · exact Or.inr (List.eq_of_mem_replicate hc)
+    | hash1 =>
+      simp only [padChars] at hc
+      split at hc
+      · omega
+      · exact Or.inl (List.eq_of_mem_replicate hc)
+  exact cpp_bucketSeq_eq st b.dir b.base _ (padChars st w) b.ext fs hdir hext hpad hnl hne hp
+
+/-- Directory scan, a frame-less file: the port constructs a FileSequence from the full path and
+    then forces the directory (fix ae21c36), basename and extension it found while scanning; when
+    the constructor accepts the path the entry is the one the Go library builds from the
+    components, whatever the directory's own name contains. -/
+theorem C19_scan_frameless (st : PadStyle) (path dir base ext : Bytes) (s0 : Seq)
+    (hdir : dir.isEmpty = true ∨ isSuffixOf ['/'] dir = true)
+    (hext : ext = [] ∨ isPrefixOf ['.'] ext = true)
+    (hp : Seq.parse st path = .ok s0) :
+    Cpp.singleSeq st path dir base [] ext = .ok (rebuild st dir base [] [] ext) :=
+  cpp_singleSeq_frameless st path dir base ext s0 hdir hext hp
 
 /-- outside the domain the two really differ: a range that parses but denotes no frame is a
     valid empty frame set in Go and an invalid FrameSet in the port (why the property excludes
